@@ -114,6 +114,8 @@ class Machine(RuleBasedStateMachine):
         self.schema = R.to_schema(recipe)
 
     def _do(self, op):
+        if runner.shrink_budget_exceeded(self._sink):
+            return
         finished, fails = runner.time_limited(lambda: self.h.apply(op), self._stats, "step")
         if not finished:
             return
